@@ -693,7 +693,81 @@ pub async fn build_primary_with2(bulk: usize, hosts: usize) -> Option<Primary> {
     Some(Primary { zone: primary, names, contents, steps })
 }
 
+/// Long transfer: a full transfer of more records than a 16-bit counter can
+/// count (66 000 address records in 66 messages) through the interpreter and
+/// the updater into an empty secondary. No fault, no draw per record: just
+/// length. Every record arrives.
+async fn long_transfer() {
+    use domain::rdata::A;
+    sim::stat("probe.long_transfer_more_records_than_16_bits_count");
+    let n = 65_600 + sim::draw("long_transfer.extra", 600) as usize;
+    ev!("long transfer: {} records", n);
+    let secondary: Zone = match build_direct(&Content::new()) {
+        Ok(z) => z,
+        Err(e) => {
+            sim::harness_error(format!("secondary: {}", e));
+            return;
+        }
+    };
+    let soa = soa_spec(7).record();
+    let mut interpreter = XfrResponseInterpreter::new();
+    let mut updater: ZoneUpdater = ZoneUpdater::new(secondary.clone()).await.expect("updater");
+    let per_msg = 1000;
+    let n_msgs = n.div_ceil(per_msg);
+    let mut finished = false;
+    for m in 0..n_msgs {
+        let mut mb = MessageBuilder::new_vec();
+        mb.header_mut().set_id(4711);
+        mb.header_mut().set_qr(true);
+        mb.header_mut().set_aa(true);
+        let mut q = mb.question();
+        q.push((stored_name(APEX), Rtype::AXFR)).unwrap();
+        let mut an = q.answer();
+        if m == 0 {
+            an.push(soa.clone()).unwrap();
+        }
+        for i in m * per_msg..((m + 1) * per_msg).min(n) {
+            let owner = stored_name(&format!("h{}.{}", i, APEX));
+            an.push((owner, domain::base::iana::Class::IN, domain::base::Ttl::from_secs(60), A::new(std::net::Ipv4Addr::from(0x0a00_0000 + i as u32)))).unwrap();
+        }
+        if m + 1 == n_msgs {
+            an.push(soa.clone()).unwrap();
+        }
+        let msg = Message::from_octets(Bytes::from(an.finish())).expect("message");
+        let it = match interpreter.interpret_response(msg) {
+            Ok(it) => it,
+            Err(e) => {
+                sim::violation(P, "fidelity", "valid-transfer-failed/long-axfr".to_string(), format!("message {} of {} of a legal full transfer of {} records was rejected: {}", m + 1, n_msgs, n, e));
+                return;
+            }
+        };
+        for u in it {
+            let u = match u {
+                Ok(u) => u,
+                Err(e) => {
+                    sim::violation(P, "fidelity", "valid-transfer-failed/long-axfr".to_string(), format!("a record in message {} of {} of a legal full transfer of {} records was rejected: {:?}", m + 1, n_msgs, n, e));
+                    return;
+                }
+            };
+            finished |= matches!(u, ZoneUpdate::Finished(_));
+            if let Err(e) = updater.apply(u).await {
+                sim::violation(P, "fidelity", "valid-transfer-failed/long-axfr".to_string(), format!("the updater refused an update of message {} of {}: {}", m + 1, n_msgs, e));
+                return;
+            }
+        }
+    }
+    drop(updater);
+    let seen = walk_zone(secondary.read().as_ref());
+    let hosts = seen.iter().filter(|x| x.1 == Rtype::A).count();
+    if !finished || hosts != n {
+        sim::violation(P, "fidelity", "secondary-differs-after-transfer/long-axfr".to_string(), format!("a full transfer of {} address records (finished: {}) left {} of them on the secondary", n, finished, hosts));
+    }
+}
+
 async fn run(_tier: Tier) {
+    if sim::chance("long_transfer", 1, 4000) {
+        return long_transfer().await;
+    }
     let Primary { zone: _primary, names: _names, contents, steps } = match build_primary().await {
         Some(p) => p,
         None => return,
@@ -861,7 +935,16 @@ async fn run(_tier: Tier) {
             }
         }
     }
-    drop(updater);
+    // An updater that has applied `Finished` is done with the zone: it may
+    // be kept around (as the record of the last transfer, say) without
+    // standing in anybody's way. Otherwise it is dropped here.
+    let kept_updater = if outcome == Ok(true) && interpreter.is_finished() && sim::chance("finished_updater_kept_alive", 1, 2) {
+        sim::stat("probe.finished_updater_kept_alive");
+        Some(updater)
+    } else {
+        drop(updater);
+        None
+    };
     if outcome != Ok(true) {
         // (It would be next in line for the write handle for ever.)
         queued = None;
@@ -964,10 +1047,14 @@ async fn run(_tier: Tier) {
     // ---- the queued update goes ahead after a finished transfer: nothing of
     // it shows before it finishes, and then exactly it is added.
     if let (Some(f), Ok(true)) = (queued, &outcome) {
-        let mut up = match f.await {
-            Ok(u) => u,
-            Err(e) => {
+        let mut up = match tokio::time::timeout(std::time::Duration::from_secs(30), f).await {
+            Ok(Ok(u)) => u,
+            Ok(Err(e)) => {
                 sim::violation(P, "atomicity", "queued-updater-failed".to_string(), format!("{}", e));
+                return;
+            }
+            Err(_) => {
+                sim::violation(P, "liveness", "next-update-never-gets-the-zone-after-a-finished-transfer".to_string(), format!("a transfer was applied to its end; an update that had waited for it was still waiting for the zone 30 virtual seconds later (the finished updater kept by its owner: {})", kept_updater.is_some()));
                 return;
             }
         };
